@@ -317,6 +317,10 @@ pub fn run(ctx: &mut Ctx) {
         MV::Num(F(3771.4999999999995)),
         MV::Str("\u{0}\u{1f}\"\\/\u{7f}\u{2028}\u{ffff}\u{10ffff}".into()),
         MV::Str("😀".into()),
+        // separators that writers like to escape or split at: U+2028 / U+2029 / U+0085 / BOM / ; , |
+        MV::Str("a\u{2028}b\u{2029}c\u{85}d\u{feff}e;f,g|h\u{200b}".into()),
+        MV::Rec(vec![("p\u{2029}".into(), MV::Num(F(1.0))), ("p\u{2028}".into(), MV::Num(F(2.0))), ("k;1".into(), MV::Str(";".into())), ("\u{feff}".into(), MV::Str("\u{2029}".into()))]),
+        MV::List(vec![MV::Str(";".into()), MV::Str("a;b;c".into()), MV::Str("\u{2029}".into()), MV::Str("x\u{2029}\u{2029}".into())]),
         MV::Rec(vec![("".into(), MV::Null), ("1".into(), MV::Bool(true)), ("a b".into(), MV::List(vec![])), ("é".into(), MV::Num(F(1.0))), ("e\u{301}".into(), MV::Num(F(2.0)))]),
         MV::List(vec![MV::List(vec![MV::List(vec![MV::List(vec![MV::List(vec![MV::Rec(vec![])])])])])]),
         // a string ending in a backslash, then strings / keys that look like JSON with trailing commas
